@@ -14,8 +14,9 @@ def _harness_flags():
     if re.search(r'void\s+sampleDirichletDistribution\s*\([^)]*\)\s*;', src):
         flags.append('-DC08_DIRICHLET_2ARG')
     # fixes/C08-6: Dirichlet / Beta sample log-gammas through sampleLogGammaDistribution; the harness then replays that helper
+    # fixes/C08-8: the plain gamma draws are kept and the helper is used only when every draw underflowed to 0
     if re.search(r'double\s+sampleLogGammaDistribution\s*\(', src):
-        flags.append('-DC08_LOG_GAMMA')
+        flags.append('-DC08_GAMMA_FALLBACK' if re.search(r'if\s*\(\s*sum\s*==\s*0\.0\s*\)', src) else '-DC08_LOG_GAMMA')
     # fixes/C08-7: do the NO_CHECK constructors of the POMDP models seed their engine?  the harness mirrors the code as it is
     try:
         pm = open(os.path.join(os.environ.get('AITB_REPO', '/repo'), 'include/AIToolbox/POMDP/Model.hpp')).read()
@@ -97,6 +98,8 @@ SPEC = {
         # vectors whose volume is the product of the table entries; MDP / POMDP rollouts; a copied engine breaks it
         'chainGo_length', 'chainGo_eq_iff', 'chainGo_box', 'chainProb_eq_prod', 'chain_selects_jointly',
         'mdpRollout_selects_jointly', 'pomdpRollout_selects_jointly', 'mdpRollout_head', 'pomdpRollout_head', 'copied_engine_not_product',
+        # round 4: Dirichlet / Beta with the underflow fallback of fixes/C08-8: valid for EVERY outcome of the gamma draws; ordinary draws untouched
+        'dirichletWithFallback_valid', 'dirichletWithFallback_isProb', 'dirichletWithFallback_eq_plain', 'betaWithFallback_in_unit',
     ]],
     'harness': 'harness/c08.cpp',
     'harness_flags': _harness_flags(),
